@@ -37,6 +37,8 @@ def catalogue():
       'x3a': F('p', feasible_values=[1.0, 2.0, 3.0]), 'x3b': F('p', feasible_values=[2.0, 3.0, 4.0]),
       'c3a': F('p', feasible_values=['a', 'b', 'c']), 'c3b': F('p', feasible_values=['b', 'c', 'd']),
       'i14': F('p', bounds=(1, 4)), 'i25': F('p', bounds=(2, 5)),
+      # feasible values that are distinct float64 numbers but closer than any "isclose" default (float64 converters only)
+      'xclose': F('p', feasible_values=[1.0, 1.0000000005, 2.0, 2.0000000000000004]),
   }
 
 
@@ -104,8 +106,8 @@ def part_single(task):
   for key in task['keys']:
     pc = cat[key]
     for scale, onehot, pad, mdi, dt, clip in itertools.product([False, True], [False, True], [False, True], [0, 10, 1000], [np.float32, np.float64], [True, False]):
-      if key == 'dtiny' and dt == np.float32:
-        continue   # 1e-300 is not representable in float32 at all
+      if key in ('dtiny', 'xclose') and dt == np.float32:
+        continue   # 1e-300 is not representable in float32 at all; nor can float32 tell the values of 'xclose' apart
       opts = dict(scale=scale, onehot_embed=onehot, pad_oovs=pad, max_discrete_indices=mdi, float_dtype=dt, should_clip=clip)
       try:
         conv = core.DefaultModelInputConverter(pc, **opts)
@@ -224,7 +226,7 @@ def part_space(task):
             return
 
     for scale, pad, mdi, dt in itertools.product([True, False], [True, False], [0, 10, 1000], [np.float32, np.float64]):
-      if 'dtiny' in keys and dt == np.float32:
+      if ('dtiny' in keys or 'xclose' in keys) and dt == np.float32:
         continue
       n += len(trials)
       nontriv += len(trials)
@@ -258,7 +260,8 @@ def part_space(task):
         c = jnp_converters.PaddedTrialToArrayConverter.from_study_config(prob, padding_schedule=ps)
         X = c.to_features(trials)
         unp = np.asarray(X.unpad())
-        check_back(name, c.to_parameters(unp), np.float32)
+        if 'xclose' not in keys:      # (a float32 path)
+          check_back(name, c.to_parameters(unp), np.float32)
         full = np.asarray(X.padded_array)
         if full.shape[0] > unp.shape[0] or full.shape[1] > unp.shape[1]:
           mask = np.ones(full.shape, bool)
@@ -271,10 +274,13 @@ def part_space(task):
       try:
         c = jnp_converters.TrialToModelInputConverter.from_problem(prob, padding_schedule=ps)
         mi = c.to_features(trials)
-        check_back(name, c.to_parameters(mi), np.float32)
+        if 'xclose' not in keys:
+          check_back(name, c.to_parameters(mi), np.float32)
       except Exception as e:  # pylint: disable=broad-except
         V('raises', name, repr(e)[:160], keys)
     name = 'ProblemAndTrialsScaler'
+    if 'xclose' in keys:
+      continue      # (a float32 path: it cannot tell these values apart and says so)
     n += len(trials)
     nontriv += len(trials)
     try:
@@ -287,7 +293,8 @@ def part_space(task):
           if pc.type == vz.ParameterType.DOUBLE and not (pc.bounds[0] - 1e-9 <= v <= pc.bounds[1] + 1e-9):
             V('scaled-outside-unit-interval', name, 'mapped trial %r' % t.parameters.as_dict(), keys)
       back = sc.unmap(mapped)
-      check_back(name, [b.parameters for b in back], np.float32)
+      if 'xclose' not in keys:
+        check_back(name, [b.parameters for b in back], np.float32)
     except Exception as e:  # pylint: disable=broad-except
       V('raises', name, repr(e)[:160], keys)
   return {'n': n, 'nontrivial': nontriv, 'violations': list(vios.values())}
